@@ -201,6 +201,10 @@ Definition obs_closes (obs : sx) : list Z := sx_Zs (sx_nth obs 7).
 Definition clause8 (anss : list (list answer)) (dones : list Z) : bool :=
   forallb (fun d => d =? 1) dones && (length dones =? length anss)%nat.
 Definition clause9 (closes : list Z) : bool := forallb (fun n => n =? 1) closes.
+Definition obs_offered (obs : sx) : list (list Z) := map sx_Zs (sx_list (sx_nth obs 4)).
+Definition clause10 (anss : list (list answer)) (offd : list (list Z)) : bool :=
+  stack_rule anss offd && (length offd =? length anss)%nat
+  && forall2b (fun ans o => negb (asked_after_error ans (length o))) anss offd.
 
 Definition mon16 (inp obs : sx) : list Z :=
   let c := dec_case16 inp in
@@ -211,7 +215,7 @@ Definition mon16 (inp obs : sx) : list Z :=
   let anss := q_anss c in
   let delivered := dec_bytes (sx_nth obs 0) in
   let code := sx_Z (sx_nth obs 1) in
-  let offd := map sx_Zs (sx_list (sx_nth obs 4)) in
+  let offd := obs_offered obs in
   let dones := obs_dones obs in
   let closes := obs_closes obs in
   let done := completes m code in
@@ -234,8 +238,7 @@ Definition mon16 (inp obs : sx) : list Z :=
   (if clause9 closes then [] else [9]) ++
   (* 10: stacks: the inner handler's error is what the next outer handler is offered, first and
          once; a handler that has answered with an error is not asked again *)
-  (if stack_rule anss offd && (length offd =? length anss)%nat
-      && forall2b (fun ans o => negb (asked_after_error ans (length o))) anss offd then [] else [10]) ++
+  (if clause10 anss offd then [] else [10]) ++
   (if is_discard m then [] else
   (* 2: the last answer consulted was an error: that error is what the consumer gets *)
   (match returned top_ans j with
